@@ -139,6 +139,8 @@ func bbAssert(focus, prop int, name string, cond bool) {
 //	2: connect - Send - inbound 0 - heartbeats unanswered - reconnect (new channel may equal the old
 //	   one) - Send - inbound 0 of the new epoch
 //	3: connect - Send - twelve heartbeat intervals with every heartbeat answered
+//	4: connect - a[3] rounds of (Send acknowledged, one inbound request in sequence): with 260 rounds
+//	   both counters pass 255 -> 0 on one connection built by the real constructor
 //
 // Asserted: the sequence numbers the gateway sees on tunnelling requests (C03), delivery and
 // acknowledgement of inbound requests incl. the restart at 0 after the reconnect (C04), the error
@@ -192,6 +194,36 @@ func HarnessTunnelBB(a []int) {
 	wantAcks := 3
 	verifAssert("BB.send", conn.Send(tunReq(0)) == nil)
 	switch scenario {
+	case 4:
+		// a long history on one connection: both counters wrap
+		rounds := a[3]
+		wantSeqs = []int{0}
+		for i := 1; i <= rounds; i++ {
+			ok := conn.Send(tunReq(i)) == nil
+			bbAssert(focus, 3, "BB.C03.long.send_succeeds", ok)
+			bbAssert(focus, 5, "BB.C05.long.send_succeeds", ok)
+			wantSeqs = append(wantSeqs, i%256)
+			g.in <- &knxnet.TunnelReq{Channel: c1, SeqNumber: uint8(i - 1), Payload: tunInd(i - 1)}
+		}
+		verifQuiesce()
+		want := make([]int, rounds)
+		for i := range want {
+			want[i] = i
+		}
+		bbAssert(focus, 4, "BB.C04.long.delivered_once_in_order", c14Equal(got, want))
+		bbAssert(focus, 5, "BB.C05.long.delivered_once_in_order", c14Equal(got, want))
+		k := 0
+		for _, f := range g.frames {
+			if r, ok := f.(*knxnet.TunnelRes); ok {
+				bbAssert(focus, 4, "BB.C04.long.ack_sequence", !tcp && int(r.SeqNumber) == k%256)
+				k++
+			}
+		}
+		wantAcks = rounds
+		if tcp {
+			wantAcks = 0
+		}
+		verifCover("BB.long")
 	case 3:
 		// a long healthy connection: twelve heartbeat intervals, every request answered - a
 		// connection-state request goes out in each of them (state that only a long history builds
